@@ -156,6 +156,23 @@ class Reader:
                                                    "numpy.asarray") and
                          dict(e.data["kwargs"]).get("dtype") is not None]
         self.mat = self.conv[0].data["result"] if self.conv else None
+        # a conversion done row by row in a loop over all raw rows: the
+        # interpreter gives the filled table the term of the whole conversion
+        self.rowwise = None
+        if self.mat is not None and self.raw is not None:
+            els = [x for x in self.mat.walk() if x.op == "elem" and
+                   x.args[0] is self.raw]
+            if len(els) == 1:
+                whole = self.mat.map(lambda x, e_=els[0]: self.raw
+                                     if x is e_ else None)
+                used = any(
+                    any(y is whole for y in v.walk())
+                    for e in self.r.events for v in
+                    ([e.data.get("result")] + list(e.data.get("args") or ()))
+                    if isinstance(v, T))
+                if used:
+                    self.rowwise = els[0]
+                    self.mat = whole
         if self.mat is not None:
             # the table the slices are taken from may be a reshaped view
             for e in self.r.of_kind("call"):
@@ -366,7 +383,45 @@ def check(ctx):
                 arg is not None and arg.op == "global" and
                 arg.args[0] in ("numpy.float64", "numpy.double"))
             conv_src_ok = whole and isfloat
-            if flat:
+            if not whole and not flat and rd.rowwise is not None and \
+                    src is rd.rowwise:
+                # row by row over *all* raw rows: every field is converted
+                # if no row is skipped; ragged rows need an explicit length
+                # test (an assignment m[i] = row broadcasts a short row)
+                lid = rd.rowwise.args[1]
+                own = [a for a in tm.atoms(c.live)
+                       if any(x is rd.rowwise or (x.op == "index" and
+                                                  x.args[0] == lid)
+                              for x in a.walk())]
+                lnr = tm.call(tm.glob("builtins.len"), (rd.rowwise,), ())
+                lens = [a for a in own if a.op == "cmp" and
+                        a.args[0] in ("Eq", "NotEq") and
+                        lnr in (a.args[1], a.args[2])]
+                rs = [x for x in rd.r.of_kind("raise") if x.idx < c.idx and
+                      any(a in tm.atoms(x.live) for a in lens)]
+                if not own and is_call_to(recv, "numpy.array",
+                                          "numpy.asarray"):
+                    ctx.ob("C07.5", c, False,
+                           f"{name}: the rows are converted one by one and "
+                           f"stored into a preallocated matrix without a "
+                           f"test of the row length: numpy broadcasts a row "
+                           f"with a single entry to the full width, so a "
+                           f"ragged file is loaded with made-up values "
+                           f"instead of being rejected",
+                           key=f"C07.5:{name}:whole-matrix")
+                    continue
+                ctx.require(len(own) == len(lens) == 1 and rs and
+                            tm.fold(c.live, lambda t: (lens[0].args[0] ==
+                                                       "Eq") if t is lens[0]
+                                    else None) is not False and
+                            tm.fold(rs[0].live, lambda t: (
+                                lens[0].args[0] == "NotEq") if t is lens[0]
+                                else None) is not False,
+                            f"{name}: row-wise conversion whose row "
+                            f"selection / length test is not recognised")
+                conv_src_ok = isfloat
+                why = f"converted row by row with astype({fmt(arg)})"
+            elif flat:
                 why = (f"the rows are flattened ({fmt(src)[:70]}) before "
                        f"the conversion and re-shaped afterwards: numpy no "
                        f"longer sees the row lengths, so ragged rows whose "
@@ -383,7 +438,9 @@ def check(ctx):
                 why = f"converted with astype({fmt(arg)})"
         ctx.ob("C07.5", rd.conv[0] if rd.conv else rd.f, conv_src_ok,
                f"{name}: np.array(all rows).astype(float) — every field of "
-               f"every row is validated" if conv_src_ok else
+               f"every row is validated" if conv_src_ok and whole else
+               f"{name}: every row is length-checked and converted with "
+               f"astype(float)" if conv_src_ok else
                f"{name}: {why}", key=f"C07.5:{name}:whole-matrix")
         in_try = rd.conv and all(
             any("ValueError" in hs or "Exception" in hs or
